@@ -60,6 +60,8 @@ def gen(ctx):
     # the bundled transports themselves (every constructor): a stop requested while nothing arrives
     for kc in ("unix new", "unix skbuf", "unix skbufsz", "chan b"):
         yield Case("STOPX", kc, tags=("stop-real-transport",))
+    for a in R.stop_from_callback_cases():
+        yield Case("RUN", a, tags=("stop-from-callback",))
     # every cut point of scripted histories
     for _ in range(300 if ctx.thorough else 25):
         algs, allp = R.gen_cfg(rng, rich=False)
